@@ -1,9 +1,46 @@
+/-
+  Property C17 (continued), class (R) — LOCAL CONVERGENCE of the SYSTEM Newton iteration of the
+  model (`Ohsl.Jac.solveSys`, Ohsl/Model/Newton.lean) from inside the basin of a simple root, in
+  exact real arithmetic: the multivariate companion of the scalar theorems of C18R / C17R.
+  Space: `ℝⁿ = Fin n → ℝ` with the sup norm (the model's `norm_inf`), arrays ↔ vectors through
+  `vec n` / `C18.arrayForm`.
+
+  Analysis (any real normed space, no model):
+  * `taylor1_lipschitz`          `‖F y - F x - F' x (y - x)‖ ≤ γ/2 ‖y - x‖²` (Lipschitz derivative on a
+                                 convex set, derivative WITHIN the set);
+  * `newton_sys_step_core`       one (quasi-)Newton step `J (x - x⁺) = F x` with `‖v‖ ≤ β ‖J v‖`,
+                                 `‖J - F' x‖ ≤ ε`:  `‖x⁺ - r‖ ≤ β (γ/2 ‖x - r‖² + ε ‖x - r‖)`;
+  * `newton_sys_step_abstract`   the same with `J : E ≃L[ℝ] E`, `x⁺ = x - J⁻¹ (F x)`, `‖J⁻¹‖ ≤ β`;
+  * `bddBelow_perturb`           perturbation lemma: `‖A⁻¹‖ ≤ β₀`, `‖J - A‖ ≤ ε`, `β₀ ε < 1` ⇒
+                                 `‖J⁻¹‖ ≤ β₀/(1 - β₀ ε)` (in "bounded below" form);
+  * `newton_sys_converges_abstract`, `newton_sys_converges_quadratic`, `newton_sys_tendsto`
+                                 `q = β (γρ/2 + ε) < 1` ⇒ the iterates stay in `B(r, ρ)`,
+                                 `‖x_k - r‖ ≤ q^k ‖x₀ - r‖`, one-step estimate at every step
+                                 (quadratic for `ε = 0`), `x_k → r`;
+  * `SysBall.residual_lower`, `SysBall.residual_upper`   `(1 - βγρ/2) ‖x - r‖ ≤ β ‖F x‖` and
+                                 `‖F x‖ ≤ (‖F' r‖ + γρ/2) ‖x - r‖` on the ball.
+  Model:
+  * `normInf_ofFn`, `matCLM`, `det_ne_zero_of_bddBelow`  bridges (norm, matrices, nonsingularity);
+  * `model_step_gen`, `model_step_qstep`, `model_step_supplied`   one iteration of the model IS
+        the abstract step (completeness + soundness of `solve_basic`, C01C / C01S);
+  * `solveSys_run`               the loop along a contracting invariant;
+  * `solveSys_converges_gen`     any Jacobian routine within `ε` of `F'` on the ball;
+  * `solveSys_converges_supplied`  user-supplied exact Jacobian (`ε = 0`, quadratic);
+  * `opNorm_sub_le_of_entries`, `solveSys_converges_fd`   finite-difference Jacobian,
+        `ε = n M₂ |δ| / 2` via `C18.jacobian_accuracy_fderiv`; invertibility of the computed matrix
+        is DERIVED from `β₀ ε < 1`, not assumed.
+  Remember (C17A): the stopping test of `solveSys` is on the residual `‖F(x_k)‖∞ ≤ tol` of the
+  point the step starts from, and the UPDATED point is returned.  All statements are about exact
+  real arithmetic; rounding (class F) is not modelled here.  Complex systems are not covered.
+-/
 import Ohsl.Props.C17B
 import Ohsl.Props.C18R
 import Ohsl.Props.C15N
 import Mathlib.Analysis.Calculus.MeanValue
 import Mathlib.Analysis.Calculus.FDeriv.Basic
 import Mathlib.Analysis.Calculus.FDeriv.Add
+import Mathlib.Analysis.Calculus.FDeriv.Pow
+import Mathlib.Analysis.Calculus.FDeriv.Pi
 import Mathlib.Analysis.Calculus.Deriv.Comp
 import Mathlib.Analysis.Normed.Module.FiniteDimension
 import Mathlib.LinearAlgebra.Matrix.ToLinearEquiv
@@ -721,4 +758,191 @@ end Conv
 
 end Model
 
+/-! ### the hypotheses are satisfiable -/
+section Examples
+
+/-- `G(x, y) = (x² + y - 2, x + y² - 2)`, simple root `(1, 1)` -/
+noncomputable def exG : (Fin 2 → ℝ) → (Fin 2 → ℝ) :=
+  fun v => ![v 0 ^ 2 + v 1 - 2, v 0 + v 1 ^ 2 - 2]
+
+/-- its Jacobian matrix `[[2x, 1], [1, 2y]]` -/
+noncomputable def exGJ (x : Fin 2 → ℝ) : ℕ → ℕ → ℝ := fun i j =>
+  if i = 0 then (if j = 0 then 2 * x 0 else 1) else (if j = 0 then 1 else 2 * x 1)
+
+noncomputable def exG' (x : Fin 2 → ℝ) : (Fin 2 → ℝ) →L[ℝ] (Fin 2 → ℝ) := matCLM 2 (exGJ x)
+
+theorem exG'_apply (x v : Fin 2 → ℝ) :
+    exG' x v = ![2 * x 0 * v 0 + v 1, v 0 + 2 * x 1 * v 1] := by
+  funext i
+  fin_cases i <;> simp [exG', matCLM_apply, Fin.sum_univ_two, exGJ]
+
+theorem exG_hasFDerivAt (x : Fin 2 → ℝ) : HasFDerivAt exG (exG' x) x := by
+  rw [hasFDerivAt_pi']
+  intro i
+  have p0 : HasFDerivAt (fun v : Fin 2 → ℝ => v 0) (ContinuousLinearMap.proj (R := ℝ) (φ := fun _ : Fin 2 => ℝ) 0) x :=
+    (ContinuousLinearMap.proj (R := ℝ) (φ := fun _ : Fin 2 => ℝ) 0).hasFDerivAt
+  have p1 : HasFDerivAt (fun v : Fin 2 → ℝ => v 1) (ContinuousLinearMap.proj (R := ℝ) (φ := fun _ : Fin 2 => ℝ) 1) x :=
+    (ContinuousLinearMap.proj (R := ℝ) (φ := fun _ : Fin 2 => ℝ) 1).hasFDerivAt
+  fin_cases i
+  · have h := ((p0.pow 2).add p1).sub_const 2
+    have e : (fun v : Fin 2 → ℝ => exG v (0 : Fin 2)) = fun v => v 0 ^ 2 + v 1 - 2 := by
+      funext v; simp [exG]
+    simp only [Fin.zero_eta]
+    rw [e]
+    refine h.congr_fderiv ?_
+    ext v
+    simp [exG'_apply]
+  · have h := (p0.add (p1.pow 2)).sub_const 2
+    have e : (fun v : Fin 2 → ℝ => exG v (1 : Fin 2)) = fun v => v 0 + v 1 ^ 2 - 2 := by
+      funext v; simp [exG]
+    simp only [Fin.mk_one]
+    rw [e]
+    refine h.congr_fderiv ?_
+    ext v
+    simp [exG'_apply]
+
+
+theorem exG'_lipschitz (x z : Fin 2 → ℝ) : ‖exG' z - exG' x‖ ≤ 2 * ‖z - x‖ := by
+  refine ContinuousLinearMap.opNorm_le_bound _ (by positivity) (fun v => ?_)
+  rw [pi_norm_le_iff_of_nonneg (by positivity)]
+  intro i
+  have hz := norm_le_pi_norm (z - x) i
+  have hv := norm_le_pi_norm v i
+  rw [Real.norm_eq_abs] at hz hv
+  have key : (exG' z - exG' x) v i = 2 * (z - x) i * v i := by
+    rw [sub_apply, exG'_apply, exG'_apply]
+    fin_cases i <;> simp <;> ring
+  rw [key, Real.norm_eq_abs, abs_mul, abs_mul, abs_of_pos (by norm_num : (0 : ℝ) < 2)]
+  have := mul_le_mul hz hv (abs_nonneg _) (norm_nonneg _)
+  nlinarith
+
+/-- at the root `(1, 1)` the Jacobian `[[2, 1], [1, 2]]` has `‖·⁻¹‖∞ = 1` -/
+theorem exG'_root_bddBelow (v : Fin 2 → ℝ) : ‖v‖ ≤ 1 * ‖exG' (fun _ => 1) v‖ := by
+  rw [one_mul, pi_norm_le_iff_of_nonneg (norm_nonneg _)]
+  have h0 := norm_le_pi_norm (exG' (fun _ => 1) v) 0
+  have h1 := norm_le_pi_norm (exG' (fun _ => 1) v) 1
+  have e0 : exG' (fun _ => 1) v 0 = 2 * v 0 + v 1 := by rw [exG'_apply]; simp
+  have e1 : exG' (fun _ => 1) v 1 = v 0 + 2 * v 1 := by rw [exG'_apply]; simp
+  rw [e0, Real.norm_eq_abs] at h0
+  rw [e1, Real.norm_eq_abs] at h1
+  obtain ⟨a0, b0⟩ := abs_le.mp h0
+  obtain ⟨a1, b1⟩ := abs_le.mp h1
+  intro i
+  rw [Real.norm_eq_abs, abs_le]
+  fin_cases i <;> constructor <;> simp <;> linarith
+
+/-- on the ball of radius `1/8` around `(1, 1)`: `‖G'(x)⁻¹‖∞ ≤ 4/3` (perturbation lemma) -/
+theorem exG'_bddBelow (x : Fin 2 → ℝ) (hx : ‖x - (fun _ => 1)‖ ≤ 1 / 8) (v : Fin 2 → ℝ) :
+    ‖v‖ ≤ 4 / 3 * ‖exG' x v‖ := by
+  have h := bddBelow_perturb (exG' (fun _ => 1)) (exG' x) 1 (1 / 4) (by norm_num)
+    exG'_root_bddBelow (le_trans (exG'_lipschitz _ x) (by linarith)) (by norm_num) v
+  norm_num at h
+  linarith
+
+theorem exG_sysBall : SysBall exG exG' (fun _ => 1) (1 / 8) 2 where
+  hroot := by funext i; fin_cases i <;> simp [exG] <;> norm_num
+  hγ := by norm_num
+  hF := fun z _ => (exG_hasFDerivAt z).hasFDerivWithinAt
+  hL := fun x _ z _ => exG'_lipschitz x z
+
+/-- the user-supplied Jacobian routine of `G` -/
+noncomputable def exGJac : Array ℝ → Res (Mat ℝ × List (Array ℝ)) :=
+  fun a => .ok (⟨#[2 * a.getD 0 0, 1, 1, 2 * a.getD 1 0], 2, 2⟩, [])
+
+theorem exGJac_spec (cur : Array ℝ) : ∃ J jtr e, exGJac cur = .ok (J, jtr) ∧ Mat.Is J 2 2 e ∧
+    ∀ i j : Fin 2, e i j = exG' (vec 2 cur) (Pi.single j 1) i := by
+  refine ⟨_, _, _, rfl, Mat.WFn.is ⟨rfl, rfl, rfl⟩, ?_⟩
+  intro i j
+  rw [exG'_apply]
+  fin_cases i <;> fin_cases j <;> simp [Mat.ent, vec]
+
+
+theorem exGuess_mem : ‖vec 2 #[9 / 8, 7 / 8] - (fun _ => (1 : ℝ))‖ ≤ 1 / 8 := by
+  rw [pi_norm_le_iff_of_nonneg (by norm_num)]
+  intro i
+  rw [Real.norm_eq_abs, abs_le]
+  fin_cases i <;> constructor <;> simp [vec] <;> norm_num
+
+/-- **non-vacuity, supplied Jacobian**: `G(x, y) = (x² + y - 2, x + y² - 2)` near its simple root
+    `(1, 1)`: `ρ = 1/8`, `γ = 2`, `β = 4/3`, `q = 1/6`.  From the guess `(9/8, 7/8)` the model's
+    `solve_jacobian` returns for every `tol` and every budget, stays within `1/8` of the root, a
+    failure has error `≤ (1/6)^m / 8`, and a reported success is within `4/15 · tol` of the root. -/
+example (tol : ℝ) (m : ℕ) :
+    ∃ out tr', solveSys (arrayForm exG) exGJac Vec.normInf (fun s => Transc.le s tol) m
+        #[9 / 8, 7 / 8] [] = .ok (out, tr') ∧
+      ‖vec 2 out.x - (fun _ => (1 : ℝ))‖ ≤ 1 / 8 ∧
+      (out.ok = false → ‖vec 2 out.x - (fun _ => (1 : ℝ))‖ ≤ (1 / 6) ^ m * (1 / 8)) ∧
+      (out.ok = true → ‖vec 2 out.x - (fun _ => (1 : ℝ))‖ ≤ 4 / 15 * tol) := by
+  obtain ⟨out, tr', e, _, o2, o3, o4, _⟩ := solveSys_converges_supplied (n := 2) (by norm_num) exG
+    exG' (fun _ => 1) (1 / 8) 2 (4 / 3) exG_sysBall (by norm_num) exG'_bddBelow (by norm_num)
+    exGJac (fun cur _ _ => exGJac_spec cur) tol m #[9 / 8, 7 / 8] rfl exGuess_mem []
+  have hq : (4 / 3 : ℝ) * 2 * (1 / 8) / 2 = 1 / 6 := by norm_num
+  rw [hq] at o3 o4
+  refine ⟨out, tr', e, le_trans o2 exGuess_mem, fun ho => le_trans (o3 ho) ?_, fun ho => ?_⟩
+  · exact mul_le_mul_of_nonneg_left exGuess_mem (by positivity)
+  · obtain ⟨k, c, _, _, _, _, _, _, _, c7⟩ := o4 ho
+    linarith
+
+/-- the partial functions of `G` are quadratics with `|∂²G_i/∂x_j²| ≤ 2` -/
+theorem exG_partials (x : Fin 2 → ℝ) (δ : ℝ) (i j : Fin 2) : ∃ g' g'' : ℝ → ℝ,
+    (∀ t ∈ uIcc 0 δ, HasDerivAt (fun s => exG (Function.update x j (x j + s)) i) (g' t) t) ∧
+    (∀ t ∈ uIcc 0 δ, HasDerivAt g' (g'' t) t) ∧ ∀ t ∈ uIcc 0 δ, |g'' t| ≤ 2 := by
+  fin_cases i <;> fin_cases j
+  · refine ⟨fun t => 2 * (x 0 + t), fun _ => 2, fun t _ => ?_, fun t _ => ?_, fun t _ => by simp⟩
+    · have e : (fun s => exG (Function.update x (0 : Fin 2) (x 0 + s)) (0 : Fin 2))
+          = fun s => (x 0 + s) ^ 2 + x 1 - 2 := by funext s; simp [exG]
+      simp only [Fin.zero_eta]
+      rw [e]
+      exact (((((hasDerivAt_id' t).const_add (x 0)).pow 2).add_const (x 1)).sub_const 2).congr_deriv
+        (by simp)
+    · exact (((hasDerivAt_id' t).const_add (x 0)).const_mul 2).congr_deriv (by ring)
+  · refine ⟨fun _ => 1, fun _ => 0, fun t _ => ?_, fun t _ => hasDerivAt_const _ _,
+      fun t _ => by simp⟩
+    have e : (fun s => exG (Function.update x (1 : Fin 2) (x 1 + s)) (0 : Fin 2))
+        = fun s => x 0 ^ 2 + (x 1 + s) - 2 := by funext s; simp [exG]
+    simp only [Fin.zero_eta, Fin.mk_one]
+    rw [e]
+    exact ((((hasDerivAt_id' t).const_add (x 1)).const_add (x 0 ^ 2)).sub_const 2)
+  · refine ⟨fun _ => 1, fun _ => 0, fun t _ => ?_, fun t _ => hasDerivAt_const _ _,
+      fun t _ => by simp⟩
+    have e : (fun s => exG (Function.update x (0 : Fin 2) (x 0 + s)) (1 : Fin 2))
+        = fun s => x 0 + s + x 1 ^ 2 - 2 := by funext s; simp [exG]
+    simp only [Fin.zero_eta, Fin.mk_one]
+    rw [e]
+    exact ((((hasDerivAt_id' t).const_add (x 0)).add_const (x 1 ^ 2)).sub_const 2)
+  · refine ⟨fun t => 2 * (x 1 + t), fun _ => 2, fun t _ => ?_, fun t _ => ?_, fun t _ => by simp⟩
+    · have e : (fun s => exG (Function.update x (1 : Fin 2) (x 1 + s)) (1 : Fin 2))
+          = fun s => x 0 + (x 1 + s) ^ 2 - 2 := by funext s; simp [exG]
+      simp only [Fin.mk_one]
+      rw [e]
+      exact (((((hasDerivAt_id' t).const_add (x 1)).pow 2).const_add (x 0)).sub_const 2).congr_deriv
+        (by simp)
+    · exact (((hasDerivAt_id' t).const_add (x 1)).const_mul 2).congr_deriv (by ring)
+
+/-- **non-vacuity, finite-difference Jacobian**: the same system with `δ = 1/1000`
+    (`M₂ = 2`, `ε = 1/500`, `β = 250/187`, `q = 127/748`): the model's `solve` returns from the
+    guess `(9/8, 7/8)` for every `tol` and budget, stays within `1/8` of the root, and a failure
+    has error `≤ (127/748)^m / 8`. -/
+example (tol : ℝ) (m : ℕ) :
+    ∃ out tr', solveSys (arrayForm exG) (fun x => jacobian (arrayForm exG) x (1 / 1000)) Vec.normInf
+        (fun s => Transc.le s tol) m #[9 / 8, 7 / 8] [] = .ok (out, tr') ∧
+      ‖vec 2 out.x - (fun _ => (1 : ℝ))‖ ≤ 1 / 8 ∧
+      (out.ok = false → ‖vec 2 out.x - (fun _ => (1 : ℝ))‖ ≤ (127 / 748) ^ m * (1 / 8)) ∧
+      (out.ok = true → ‖vec 2 out.x - (fun _ => (1 : ℝ))‖ ≤ 127 / 748 * (8 / 5 * tol)) := by
+  have hδ : |(1 / 1000 : ℝ)| = 1 / 1000 := abs_of_pos (by norm_num)
+  have hε : ((2 : ℕ) : ℝ) * (2 * |(1 / 1000 : ℝ)| / 2) = 1 / 500 := by rw [hδ]; norm_num
+  have hB : pertB (4 / 3) (1 / 500) = 250 / 187 := by rw [pertB]; norm_num
+  have hQ : sysQ (250 / 187) 2 (1 / 8) (1 / 500) = 127 / 748 := by rw [sysQ]; norm_num
+  obtain ⟨out, tr', e, _, o2, o3, o4, _⟩ := solveSys_converges_fd (n := 2) (by norm_num) exG
+    exG' (fun _ => 1) (1 / 8) 2 (4 / 3) (1 / 1000) 2 exG_sysBall (by norm_num) (by norm_num)
+    (fun x _ => exG_hasFDerivAt x) (fun x _ i j => exG_partials x _ i j)
+    (by rw [hε]; norm_num) exG'_bddBelow (by rw [hε, hB, hQ]; norm_num)
+    tol m #[9 / 8, 7 / 8] rfl exGuess_mem []
+  rw [hε, hB, hQ] at o3 o4
+  refine ⟨out, tr', e, le_trans o2 exGuess_mem, fun ho => le_trans (o3 ho) ?_, fun ho => ?_⟩
+  · exact mul_le_mul_of_nonneg_left exGuess_mem (by positivity)
+  · obtain ⟨k, c, _, _, _, _, _, _, _, c7⟩ := o4 ho
+    linarith
+
+end Examples
 end Ohsl.Props.C17
